@@ -58,6 +58,8 @@ def main(argv=None) -> int:
             return 2
         print('replay: obligation no longer fails on the current tree')
         return 0
+    if os.path.realpath(args.repo) != os.path.realpath('/repo'):
+        os.environ['SA_NO_EVIDENCE'] = '1'      # evidence/<id>.json describes runs against /repo only
     rep = run_property(pid, args.tier, args.repo)
     return rep.finish()
 
